@@ -13,8 +13,10 @@ import SC.Format
 import SC.Rules
 import SCP.C07
 import SCP.C05
+import SCP.Lemmas.C13
 namespace SCP.C13
 open SC
+open SCP.Lemmas.C13
 
 /-- the digits (without prefix) of the printed form of a based number -/
 def basedDigits (t : NumType) (n : Nat) : List Char :=
@@ -27,35 +29,52 @@ def baseOf : NumType → Nat
   | .binary => 2 | .octal => 8 | _ => 16
 
 /-- reading the printed digits back gives the number, for every n -/
-theorem print_read (t : NumType) (n : Nat) : radixValue (baseOf t) (basedDigits t n) = n := by sorry
+theorem print_read (t : NumType) (n : Nat) : radixValue (baseOf t) (basedDigits t n) = n := by
+  cases t <;> exact SCP.C07.radixValue_radixDigits _ n (by decide) (by decide)
 
 /-- over exact arithmetic: a non-negative integer value prints as prefix ++ its digits -/
 theorem printBased_nat (n : Nat) (t : NumType) (ht : t = .binary ∨ t = .octal ∨ t = .hex) :
     printBased ((n : Int) : Rat) t =
-      (match t with | .binary => "0b" | .octal => "0o" | _ => "0x") ++ String.ofList (basedDigits t n) := by sorry
+      (match t with | .binary => "0b" | .octal => "0o" | _ => "0x") ++ String.ofList (basedDigits t n) := by
+  have h1 : Num.toInt (Num.trunc ((n : Int) : Rat)) = (n : Int) := by rw [trunc_natCast, toInt_natCast]
+  rcases ht with rfl | rfl | rfl <;> simp [printBased, h1, lt_zero_natCast, basedDigits]
 
 /-- reading accepts lower-case hex digits with the same value as upper-case ones -/
 theorem digitOf_lower (d : Nat) (h : 10 ≤ d ∧ d < 16) :
-    digitOf (Char.ofNat (87 + d)) = d ∧ digitOf (Char.ofNat (55 + d)) = d := by sorry
+    digitOf (Char.ofNat (87 + d)) = d ∧ digitOf (Char.ofNat (55 + d)) = d := by
+  have key : ∀ d, d < 16 → 10 ≤ d →
+      digitOf (Char.ofNat (87 + d)) = d ∧ digitOf (Char.ofNat (55 + d)) = d := by decide
+  exact key d h.2 h.1
 
 /-- printed digits are never empty -/
-theorem basedDigits_ne_nil (t : NumType) (n : Nat) : basedDigits t n ≠ [] := by sorry
+theorem basedDigits_ne_nil (t : NumType) (n : Nat) : basedDigits t n ≠ [] := by
+  cases t <;> exact SCP.C07.radixDigits_ne_nil _ n
 
 /-- `N to hex | octal | binary | decimal`: the value is rounded half away from zero and tagged
     with the target base (rule `number_type_convert`) -/
 theorem convert_rounds (c : Cfg Rat) (lang : String) (now : Now) (vs : Vars Rat) (x : Rat) :
     applyRule c lang now vs .numberTypeConvert
         [("number", SCP.C05.ti (SCP.C05.num x)), ("type", SCP.C05.tiText "hex")] =
-      some (.item (.number (Num.round x) .hex)) := by sorry
+      some (.item (.number (Num.round x) .hex)) := by
+  simp [applyRule, Fields.get?, assoc?, SCP.C05.ti, SCP.C05.num, SCP.C05.tiText, getNumber, getText, fieldItem]
 
 /-- `Num.round` over Rat is rounding half away from zero -/
-theorem round_half_away (k : Int) : Num.round ((2 * k + 1 : Int) / 2 : Rat) = ((if k ≥ 0 then k + 1 else k : Int) : Rat) := by sorry
+theorem round_half_away (k : Int) : Num.round ((2 * k + 1 : Int) / 2 : Rat) = ((if k ≥ 0 then k + 1 else k : Int) : Rat) := by
+  show (if ((2 * k + 1 : Int) : Rat) / 2 < 0
+      then -(((-(((2 * k + 1 : Int) : Rat) / 2) + 1 / 2).floor : Int) : Rat)
+      else ((((((2 * k + 1 : Int) : Rat) / 2) + 1 / 2).floor : Int) : Rat)) = _
+  by_cases hk : k ≥ 0
+  · have hx : ¬ ((2 * k + 1 : Int) : Rat) / 2 < 0 := by rw [half_int_neg_iff]; omega
+    rw [if_neg hx, if_pos hk, half_add_half, Rat.floor_intCast]
+  · have hx : ((2 * k + 1 : Int) : Rat) / 2 < 0 := by rw [half_int_neg_iff]; omega
+    rw [if_pos hx, if_neg hk, neg_half_add_half, Rat.floor_intCast, Rat.intCast_neg, Rat.neg_neg]
 
 /-- arithmetic keeps the left operand's base -/
 theorem arithmetic_keeps_base (rates) (conv) (a b : Rat) (t u : NumType) (op : BinOp) :
-    ∃ v, calcItem rates conv (.number a t) (.number b u) op = some (.number v t) := by sorry
+    ∃ v, calcItem rates conv (.number a t) (.number b u) op = some (.number v t) :=
+  ⟨_, rfl⟩
 
-example : printBased ((255 : Int) : Rat) .hex = "0xFF" := by sorry
-example : radixValue 16 ['f', 'F'] = 255 := by sorry
+example : printBased ((255 : Int) : Rat) .hex = "0xFF" := by decide +kernel
+example : radixValue 16 ['f', 'F'] = 255 := by decide
 
 end SCP.C13
